@@ -56,20 +56,24 @@ Definition body_ok (r : Z) (body : list Z) : bool :=
 Definition body_value (r : Z) (body : list Z) : Z :=
   dsum r (rev (map digit_of (filter (fun c => negb (c =? 95)) body))).
 
+(** the text after the sign: empty / not in the language / its value *)
+Definition body_parse (r : Z) (body : list Z) : parse_result Z :=
+  match body with
+  | [] => PErr PEmpty
+  | _ => if body_ok r body then POk (body_value r body) else PErr PInvalid
+  end.
+(** one optional sign: '+' for both types, '-' for BigInt only *)
+Definition split_sign (signed : bool) (s : list Z) : bool * list Z :=
+  match s with
+  | c :: t => if c =? 43 then (false, t)
+              else if (c =? 45) && signed then (true, t)
+              else (false, s)
+  | [] => (false, s)
+  end.
 Definition spec_from_str (signed : bool) (s : list Z) (r : Z) : outcome (parse_result Z) :=
   if radix_in 2 36 r then
-    let '(neg, body) :=
-      match s with
-      | 43 :: t => (false, t)
-      | 45 :: t => if signed then (true, t) else (false, s)
-      | _ => (false, s)
-      end in
-    Ret (match body with
-         | [] => PErr PEmpty
-         | _ => if body_ok r body
-                then POk (if neg then - body_value r body else body_value r body)
-                else PErr PInvalid
-         end)
+    let '(neg, body) := split_sign signed s in
+    Ret (pr_map (fun v => if neg then - v else v) (body_parse r body))
   else Panic BadRadix.
 
 (** parse_bytes: not UTF-8 → None (before the radix is looked at); otherwise from_str_radix *)
